@@ -21,8 +21,10 @@ Definition opPong : N := Z.to_N websocket_PongMessage.
 Definition defaultWBuf : N := Z.to_N websocket_defaultWriteBufferSize.
 Definition wordSize : N := Z.to_N websocket_wordSize.
 
-Definition is_control (t : N) : bool := (t =? opClose) || (t =? opPing) || (t =? opPong).
-Definition is_data (t : N) : bool := (t =? opText) || (t =? opBinary).
+(* isControl / isData / isValidCompressionLevel are the bodies repo2coq translated from conn.go *)
+Definition okb (r : res bool) : bool := match r with Ok b => b | _ => false end.
+Definition is_control (t : N) : bool := okb (websocket_isControl (Z.of_N t)).
+Definition is_data (t : N) : bool := okb (websocket_isData (Z.of_N t)).
 
 (* error codes of the observation *)
 Definition eOK : N := 0.
@@ -425,8 +427,7 @@ Definition do_prepared (c : cfg) (s : cst) (idx t : N) (p : bytes) (wchunks cchu
   if negb (e =? 0) then Ok (s1, e)
   else let (m1, e1) := conn_write (mw s1) t [v] in Ok (st_mw s1 m1, e1).
 
-Definition valid_level (l : Z) : bool :=
-  (websocket_minCompressionLevel <=? l)%Z && (l <=? websocket_maxCompressionLevel)%Z.
+Definition valid_level (l : Z) : bool := okb (websocket_isValidCompressionLevel l).
 
 (* ================= independent RFC 6455 / 7692 frame parser and validity ================= *)
 Record pframe := mkF {
@@ -434,6 +435,14 @@ Record pframe := mkF {
   pf_masked : bool; pf_key : bytes;
   pf_form : N (* 0: 7-bit length, 1: 16-bit, 2: 64-bit *);
   pf_len : N; pf_payload : bytes (* unmasked *) }.
+
+(* take exactly n bytes; walks at most min n |b| cells (a hostile 64-bit length costs nothing) *)
+Fixpoint take_cnt (n : N) (b : bytes) : option (bytes * bytes) :=
+  if n =? 0 then Some ([], b)
+  else match b with
+       | [] => None
+       | x :: t => match take_cnt (N.pred n) t with Some (a, r) => Some (x :: a, r) | None => None end
+       end.
 
 Definition parse_one (w : bytes) : option (pframe * bytes) :=
   match w with
@@ -455,7 +464,7 @@ Definition parse_one (w : bytes) : option (pframe * bytes) :=
                  else Some ([], r1)) with
           | None => None
           | Some (key, r2) =>
-              match takeN len r2 with
+              match take_cnt len r2 with
               | None => None
               | Some (pl, r3) =>
                   Some (mkF fin rsv op masked key form len (if masked then mask_fast key 0 pl else pl), r3)
